@@ -166,6 +166,8 @@ def vsig(p, mode, exp=None, got=None):
         sig.update(binder=K, capture=Cc, assign=A, shadow=S, fwd=F)
     elif p.kind == "protocol":
         sig["what"] = "/".join(str(x) for x in p.sig[1:3])
+    elif p.kind == "toplevel":
+        sig["what"] = "/".join(str(x) for x in p.sig[1:])
     if exp is not None:
         sig["expected"] = exp
     if got is not None:
@@ -225,6 +227,9 @@ def make_programs(tier, seed, errors=0.03, consts=0.0, n_random=None, pattern_va
     # (iii) boundary protocols
     for i, (sig, main) in enumerate(G.protocol_programs(tier != "quick")):
         progs.append(Prog("b%d" % i, ("protocol",) + tuple(sig), [], main, "protocol"))
+    # (iv) top-level sequences (globals assigned / redefined between definition and use)
+    for i, (sig, tops, main) in enumerate(toplevel_programs()):
+        progs.append(Prog("t%d" % i, sig, tops, main, "toplevel"))
     # (ii) typed random programs
     nr = n_random if n_random is not None else (8000 if tier == "quick" else 200000)
     for i in range(nr):
@@ -233,6 +238,59 @@ def make_programs(tier, seed, errors=0.03, consts=0.0, n_random=None, pattern_va
         out = "err" if "error" in g.forms else "ok"
         progs.append(Prog("r%d" % i, ("random", frozenset(g.forms)), tops, main, "random"))
     return progs
+
+
+def toplevel_programs():
+    """(sig, tops, main): sequences of TOP-LEVEL forms - global variables holding procedures that are later assigned or
+    redefined, consumers compiled before or after the change, redefinitions that use the old value (R7RS 5.3.1: a
+    top-level define of an already bound variable is equivalent to set!)."""
+    out = []
+    targets = [("car", "cdr", "'(1 2 3)"), ("+", "*", "3 4"), ("list", "vector", "1 2"), ("cadr", "car", "'(5 6 7)"),
+               ("(lambda (x) (list 'old x))", "(lambda (x) (list 'new x))", "9"),
+               ("car", "(lambda (x) (list 'mine x))", "'(1 2)"), ("(lambda (x) (list 'old x))", "car", "'(7 8)")]
+    n = 0
+    for old, new, args in targets:
+        for change in ("set!", "define"):
+            for use in ("operator", "operand", "closure", "apply"):
+                for when in ("before", "after", "both"):
+                    n += 1
+                    g, f, k = "tg%d" % n, "tf%d" % n, "tk%d" % n
+                    if use == "operator":
+                        consumer = "(define (%s) (%s %s))" % (f, g, args)
+                    elif use == "operand":
+                        consumer = "(define (%s) (map (lambda (p) (p %s)) (list %s)))" % (f, args, g)
+                    elif use == "closure":
+                        consumer = "(define %s (let ((n 0)) (lambda () (set! n (+ n 1)) (list n (%s %s)))))" % (f, g, args)
+                    else:
+                        consumer = "(define (%s) (apply %s (list %s)))" % (f, g, args)
+                    chg = "(%s %s %s)" % (change, g, new)
+                    tops = ["(define %s %s)" % (g, old)]
+                    if when == "before":
+                        tops += [consumer, chg]
+                        main = "(list (%s))" % f
+                    elif when == "after":
+                        tops += [chg, consumer]
+                        main = "(list (%s))" % f
+                    else:
+                        tops += [consumer, "(define %s (%s))" % (k, f), chg]
+                        main = "(list %s (%s))" % (k, f)
+                    out.append((("toplevel", "global-procedure", change, use, when, "prim" if old[0] != "(" else "lambda",
+                                 "prim" if new[0] != "(" else "lambda"), tops, main))
+    # redefinition / assignment using the old value
+    m = 0
+    for init, expr in (("5", "(+ {v} 1)"), ("'(1 2)", "(cons 0 {v})"), ("(lambda () 1)", "(let ((old {v})) (lambda () (+ 10 (old))))"),
+                       ("10", "(let ((a {v})) (* a a))")):
+        for change in ("define", "set!"):
+            m += 1
+            v = "tv%d" % m
+            tops = ["(define %s %s)" % (v, init), "(%s %s %s)" % (change, v, expr.replace("{v}", v))]
+            main = "(if (procedure? %s) (%s) %s)" % (v, v, v)
+            out.append((("toplevel", "redefine-with-old-value", change, init[:6]), tops, main))
+    # a definition after use in a procedure body compiled earlier (forward reference at top level)
+    out.append((("toplevel", "forward-reference"), ["(define (tfw1) (tfw2 4))", "(define (tfw2 x) (* x 2))"], "(tfw1)"))
+    out.append((("toplevel", "forward-reference-redefined"), ["(define (tfw3) (tfw4 4))", "(define (tfw4 x) (* x 2))",
+                                                               "(define tfw5 (tfw3))", "(define (tfw4 x) (* x 3))"], "(list tfw5 (tfw3))"))
+    return out
 
 
 def filter_by_model(rep, progs):
@@ -257,6 +315,8 @@ def filter_by_model(rep, progs):
 def isolated(p):
     """Programs that assign a rest parameter run one per process: a known defect (C03-assigned-rest-elided)
     corrupts the VM stack there and the damage would otherwise surface in whatever case happens to follow."""
+    if p.kind == "toplevel":
+        return True      # their top-level forms run outside the case wrapper: an error there ends the process
     return p.kind == "protocol" and p.sig[1] == "rest-use" and str(p.sig[2]).startswith("set-target")
 
 
@@ -291,7 +351,7 @@ def check(rep, tier, seed):
         if outcome_class(p.exp[2]) != "value":
             nerr += 1
         ok = judge(rep, p, res.get(p.id))
-    for kind in ("pattern", "protocol", "random"):
+    for kind in ("pattern", "protocol", "random", "toplevel"):
         ps = [p for p in progs if p.kind == kind]
         rep.extra["programs_" + kind] = len(ps)
         for p in ps[:3]:
